@@ -75,3 +75,37 @@ Example C03_nest3_run :
   decompile_handler (compile_p nest3 ++ [b 1])
   = Ok (rebuilt flow_env [] 0 nest3 ++ [let e := zlen (compile_p nest3) in Stmt e (Call "exit" e None true false false)]).
 Proof. vm_compute. reflexivity. Qed.
+
+(* ---- unbounded part, with counting loops ---- *)
+From DRX Require Import Spec.SpecFor Proofs.LingoNestFor.
+
+(* The same for programs that also contain  repeat with v = a to b  and  repeat with v = a down to b  (any
+   expressions as bounds, a local variable as counter): Director compiles them as an assignment, a loop on
+   v <= b / v >= b and a last statement adding 1 / -1 (SpecFor.desugar); the decompiler recognises the pattern,
+   restores the header with its variable, bounds and direction, drops the step and deletes the initial assignment
+   (SpecFor.final), to any nesting depth and mixed freely with if / if-else / repeat while.  Only  exit repeat
+   (the open findings P1-P4) and  repeat with ... in <list>  are outside this theorem. *)
+Theorem C03_counting_loops_rebuilt_unbounded :
+  forall en props q d off fuel r m,
+  wf_p any_cond en (desugar q) -> ok2 en q -> agrees_p en props m -> m_stack m = [] -> f_stmts (m_fn m) = [] ->
+  code_at d off (code2 q ++ [b 1]) ->
+  let pexit := off + zlen (code2 q) in
+  let exit_st := Stmt pexit (Call "exit" pexit None true false false) in
+  exists r' m',
+    run_ops (ninstr_p (desugar q) + (1 + fuel)) d off (zlen (code2 q ++ [b 1])) off r m = Ok (r', m') /\
+    detect (f_stmts (m_fn m')) = Ok (final en props off q ++ [exit_st]).
+Proof. exact for_handler. Qed.
+Print Assumptions C03_counting_loops_rebuilt_unbounded.
+
+Definition qput (n : Z) : stmt := SCallS 9 [EInt n].
+Definition forq : prog2 :=
+  QStmt (qput 1)
+   (QFor false 1 (EInt 1) (EInt 9)
+      (QStmt (qput 2) (QIf (c_lt 3) (QFor true 2 (EInt 9) (ELoc 1) (QStmt (qput 4) QNil) QNil) (QWhile (c_lt 5) (QStmt (qput 6) QNil) QNil)))
+   (QFor false 3 (ELoc 0) (EBin Add (ELoc 0) (EInt 2)) (QStmt (qput 7) QNil) (QStmt (qput 8) QNil))).
+Example C03_forq_ok : wf_p any_cond flow_env (desugar forq) /\ ok2 flow_env forq.
+Proof. cbn. repeat split; try lia; try discriminate; intros; reflexivity. Qed.
+Example C03_forq_run :
+  decompile_handler (code2 forq ++ [b 1])
+  = Ok (final flow_env [] 0 forq ++ [let e := zlen (code2 forq) in Stmt e (Call "exit" e None true false false)]).
+Proof. vm_compute. reflexivity. Qed.
